@@ -32,6 +32,102 @@ static const RootPidStore *g_store = NULL;
 // through it, after its buffer has been filled with 0xff by another message.
 static ola::rdm::MessageSerializer *g_shared = NULL;
 
+// ONE deserializer for the whole run, used across delete/reload of the PID store: InflateMessage
+// must not depend on anything an earlier call (with other, possibly freed, descriptors) left behind.
+static ola::rdm::MessageDeserializer *g_des = NULL;
+
+static string describe(const Message *m) {
+  if (!m) return "null";
+  ola::rdm::MessageSerializer s;
+  unsigned int n = 0;
+  const uint8_t *out = s.SerializeMessage(m, &n);
+  return c14::msg_str(m) + "/" + vh::hex(out, n);
+}
+
+// decode with the long-lived deserializer and with a fresh one; "same" or the long-lived result
+static string long_lived_decode(const Descriptor *d, const vector<uint8_t> &bytes) {
+  if (!g_des) g_des = new ola::rdm::MessageDeserializer();
+  vh::Exact e1(bytes), e2(bytes);
+  std::auto_ptr<const Message> ml(g_des->InflateMessage(d, e1.p, e1.n));
+  ola::rdm::MessageDeserializer fresh;
+  std::auto_ptr<const Message> mf(fresh.InflateMessage(d, e2.p, e2.n));
+  string a = describe(ml.get()), b = describe(mf.get());
+  return a == b ? string("same") : a;
+}
+
+struct DescRef { unsigned man, pid, kind; const Descriptor *d; };
+static void all_descs(vector<DescRef> *out) {
+  vector<std::pair<unsigned, const PidStore*> > stores;
+  stores.push_back(std::make_pair(0u, g_store->EstaStore()));
+  for (unsigned man = 1; man < 65536; man++) {
+    const PidStore *s = g_store->ManufacturerStore(man);
+    if (s) stores.push_back(std::make_pair(man, s));
+  }
+  for (size_t i = 0; i < stores.size(); i++) {
+    vector<const PidDescriptor*> l;
+    stores[i].second->AllPids(&l);
+    for (size_t k = 0; k < l.size(); k++) {
+      const Descriptor *ds[4] = {l[k]->GetRequest(), l[k]->GetResponse(), l[k]->SetRequest(),
+                                 l[k]->SetResponse()};
+      for (unsigned j = 0; j < 4; j++) {
+        if (!ds[j]) continue;
+        DescRef r = {stores[i].first, l[k]->Value(), j, ds[j]};
+        out->push_back(r);
+      }
+    }
+  }
+}
+
+// "reload <k>": let the long-lived deserializer see every descriptor of the current store, delete the
+// store, disturb the heap (k-dependent), load the shipped files again and compare the long-lived
+// deserializer with a fresh one on every descriptor of the NEW store for payload lengths 0..47.
+static string reload_op(unsigned k) {
+  if (!g_des) g_des = new ola::rdm::MessageDeserializer();
+  vector<DescRef> before;
+  all_descs(&before);
+  uint8_t one[1] = {1};
+  for (size_t i = 0; i < before.size(); i++)
+    delete g_des->InflateMessage(before[i].d, one, 0);
+  delete g_store;
+  g_store = NULL;
+  // push the freed blocks through ASan's quarantine so that they are handed out again
+  for (int i = 0; i < 400; i++) free(malloc(1 << 20));
+  // disturb the free lists: synthetic descriptors of varying shapes, some kept, some freed
+  static const char *shapes[] = {"u8", "b,u16,s0:8,u8", "g0:-1[u16l,b]", "uid,g2:2[u8,g3:3[b]],u8",
+                                 "s2:6,b", "g1:3[u8,u16]", "-", "ip4,ip6,mac", "u64,u16,s255:255"};
+  vector<const Descriptor*> tmp;
+  for (unsigned i = 0; i < 40 + 13 * (k % 7); i++)
+    tmp.push_back(c14::parse_desc(shapes[(i * (k + 1)) % 9]));
+  for (size_t i = 0; i < tmp.size(); i++)
+    if ((i + k) % 3 != 0) delete tmp[i];      // the rest stays allocated
+  if (k % 2) {
+    // an unvalidated load of the same files, deleted again
+    delete RootPidStore::LoadFromDirectory(PID_DATA_DIR, false);
+    for (int i = 0; i < 400; i++) free(malloc(1 << 20));
+  }
+  g_store = RootPidStore::LoadFromDirectory(PID_DATA_DIR, true);
+  if (!g_store) return "load=failed;r=store-load-failed";
+  vector<DescRef> after;
+  all_descs(&after);
+  unsigned reused = 0;
+  for (size_t i = 0; i < after.size(); i++)
+    for (size_t j = 0; j < before.size(); j++)
+      if (after[i].d == before[j].d) { reused++; break; }
+  fprintf(stderr, "reload %u: %u of %u descriptor addresses reused\n", k, reused,
+          static_cast<unsigned>(after.size()));
+  for (size_t i = 0; i < after.size(); i++) {
+    for (unsigned len = 0; len < 48; len++) {
+      vector<uint8_t> bytes(len, 1);
+      string r = long_lived_decode(after[i].d, bytes);
+      if (r != "same")
+        return "sweep=diff:" + vh::str(after[i].man) + ":" + vh::str(after[i].pid) + ":" +
+               vh::str(after[i].kind) + ":len" + vh::str(len) + ":" + c14::desc_str(after[i].d) +
+               ":long-lived-deserializer-says:" + r + ";n=" + vh::str(after.size());
+    }
+  }
+  return "sweep=ok;n=" + vh::str(after.size());
+}
+
 static string shared_serialize(const Message *m, size_t payload_len) {
   if (!g_shared) g_shared = new ola::rdm::MessageSerializer();
   {
@@ -103,7 +199,8 @@ static string run(const Descriptor *d, unsigned prev, const vector<uint8_t> &byt
   }
   vh::Exact e(bytes);
   std::auto_ptr<const Message> m(deserializer.InflateMessage(d, e.p, e.n));
-  if (!m.get()) return o.str() + ";r=null";
+  string ldes = ";ldes=" + long_lived_decode(d, bytes);
+  if (!m.get()) return o.str() + ";r=null" + ldes;
   ola::rdm::MessageSerializer serializer;
   unsigned int n = 0;
   const uint8_t *out = serializer.SerializeMessage(m.get(), &n);
@@ -133,7 +230,7 @@ static string run(const Descriptor *d, unsigned prev, const vector<uint8_t> &byt
     string sh = shared_serialize(m.get(), bytes.size());
     o << ";shared=" << (sh == vh::hex(outv) ? string("same") : sh);
   }
-  return o.str();
+  return o.str() + ldes;
 }
 
 static string handle(const string &p) {
@@ -154,6 +251,7 @@ static string handle(const string &p) {
     if (!d.get()) return "d=unparsable";
     return run(d.get(), vh::num(a[2]), vh::unhex(a[3]));
   }
+  if (a[0] == "reload" && a.size() == 2) return reload_op(vh::num(a[1]));
   if (a[0] == "store") {
     // count what the store holds: descriptors and PIDs, as the exporter enumerated them
     unsigned ndesc = 0, npids = 0;
